@@ -196,6 +196,19 @@ func (d *Document) AddListItem(text string, config *ListConfig) *Paragraph {
 		}
 	}
 
+	// 缩进级别超出0-8时调整到有效范围（每个编号定义只有9个级别，
+	// 超出范围的ilvl在编号定义中找不到对应的级别）
+	if config.IndentLevel < 0 || config.IndentLevel > 8 {
+		Warnf("列表缩进级别应在0-8之间，已调整为有效范围")
+		adjusted := *config
+		if adjusted.IndentLevel < 0 {
+			adjusted.IndentLevel = 0
+		} else {
+			adjusted.IndentLevel = 8
+		}
+		config = &adjusted
+	}
+
 	// 确保编号管理器已初始化
 	d.ensureNumberingInitialized()
 
